@@ -552,6 +552,15 @@ fn parse_token(
         true_left = None;
     }
 
+    // the node before this one assumed it would get this node as its right operand,
+    // once this node has climbed past it that assumption no longer holds
+    if left != parent {
+        match left.and_then(|start| nodes.get_mut(start)) {
+            Some(start_node) if start_node.right == Some(id) => start_node.right = None,
+            _ => (),
+        }
+    }
+
     match true_left {
         None => (),
         Some(index) => match nodes.get_mut(index) {
